@@ -631,7 +631,7 @@ func init() {
 
 	RegisterRapid("C02_aut_fresh",
 		"rapid: same symmetric-biased generator, n <= 12 (quick) / 20 (thorough) plus edgeless/complete/n<=2, a quarter of the cases from the large-cell families on 13..30 (40) vertices. CanonicalIsomorphFull(g, nil) on dense and sparse inputs: every generator is a permutation and an automorphism, the returned orbit partition equals the orbit partition of Aut(g) computed by an independent existence-of-automorphism search (both directions), and the group generated by the returned generators (own Schreier-Sims) has order |Aut(g)| (stabiliser-chain oracle), hence is all of Aut(g). Non-trivial: |Aut(g)| > 1.",
-		Budget{Checks: 1500, Shards: 1}, Budget{Checks: 10000, Shards: 8},
+		Budget{Checks: 1500, Shards: 1}, Budget{Checks: 2500, Shards: 16},
 		func(t *rapid.T) autCase {
 			if rapid.IntRange(0, 3).Draw(t, "largecells") == 0 {
 				return autCase{specOf(genLargeSymmetric(t, sz(30, 40)))}
@@ -640,7 +640,7 @@ func init() {
 		}, checkAutCase)
 	RegisterRapid("C02_storage_reuse",
 		"rapid: a history of 2..8 (thorough 30) graphs (mixed generator n <= 9/12, edgeless incl. n = 0, complete) pushed through ONE NewStorage/NewOrderedPartition pair sized for the largest plus slack, Reset before each call, a third of the graphs with an ordered partition into 1..4 vertex classes (so the number of root cells goes up and down as well); results are copied out and must (a) satisfy the C02_aut_fresh checks and (b) equal a fresh CanonicalIsomorphFull call: same permutation, same orbit partition, same generator list. Non-trivial: some graph has fewer vertices than its predecessor.",
-		Budget{Checks: 600, Shards: 1}, Budget{Checks: 4000, Shards: 8}, genReuseCase, checkReuseCase)
+		Budget{Checks: 600, Shards: 1}, Budget{Checks: 1000, Shards: 16}, genReuseCase, checkReuseCase)
 	RegisterRapid("C02_vertex_classes",
 		"rapid: graph (n <= 8/11) with an ordered partition of the vertices into 1..4 classes given as lists in arbitrary order, and a relabelling. CanonicalIsomorphFull(g, classes): permutation lists class 0 first, then class 1, ...; orbits/generators are checked against the class-preserving automorphism group; relabelling g and transporting the classes gives the identical canonical graph with the same class at every position. Non-trivial: >= 2 classes and a non-trivial class-preserving automorphism.",
 		Budget{Checks: 1500, Shards: 1}, Budget{Checks: 10000, Shards: 8}, genClassCase, checkClassCase)
